@@ -569,7 +569,8 @@ def run(ctx):
         case = {"expr": c["expr"], "prolog": c["prolog"], "outcomes": {k: list(v) for k, v in outs.items()}, "model": mres}
         top = e[1] if e[0] == "app" else e[0]
         for cls, msg in problems:
-            if cls == "contexts" and all(v[0] == "ok" for v in outs.values()) and negzero_intermediate(e):
+            if cls == "contexts" and negzero_intermediate(e) and all(
+                    v[0] == "ok" or (k == "c3" and v[1].startswith("comparison contexts: X=")) for k, v in outs.items()):
                 negzero_instances += 1
                 findings.append(core.Finding("violation", {"family": "arithctx", "class": "negative-zero-intermediate"},
                                              "an intermediate result -0.0 keeps its sign in some contexts and becomes +0.0 in others (finding C03-1): " + msg, case))
